@@ -390,3 +390,227 @@ theorem dAddAll_dinv (cfg : Cfg) (U : List Event) (hU : Accepted U) :
         (dAdd_dinv cfg U hU _ _ _ _ e mode (hl (e, mode) (List.mem_cons_self ..)) h (by rw [hA])) hr
 
 end Nuts.C10
+
+namespace Nuts.C10
+open Nuts
+
+/-! ## the store component of `dAdd` is `add` on the Adds whose two transactions ran -/
+
+/-- the events of a sequence whose Add ran both write transactions -/
+def applied (l : List (Event × Nat)) : List Event :=
+  (l.filter (fun p => !(p.2 == 1 || p.2 == 2))).map (·.1)
+
+theorem dAdd_store (cfg : Cfg) (b b' : Blob) (s s' : Store) (e : Event) (mode : Nat)
+    (h : dAdd cfg b s e mode = .ok (b', s')) :
+    ((mode = 1 ∨ mode = 2) ∧ s' = s) ∨ (mode ≠ 1 ∧ mode ≠ 2 ∧ add cfg s e = .ok s') := by
+  unfold dAdd at h
+  by_cases h1 : mode = 1
+  · simp only [h1, if_true, Res.ok.injEq, Prod.mk.injEq] at h
+    exact Or.inl ⟨Or.inl h1, h.2.symm⟩
+  · simp only [h1, if_false] at h
+    by_cases h2 : mode = 2
+    · simp only [h2, if_true, Res.ok.injEq, Prod.mk.injEq] at h
+      exact Or.inl ⟨Or.inr h2, h.2.symm⟩
+    · simp only [h2, if_false] at h
+      right
+      refine ⟨h1, h2, ?_⟩
+      cases hA : add cfg s e with
+      | err x => simp only [hA] at h; cases h
+      | panic x => simp only [hA] at h; cases h
+      | ok s1 =>
+        simp only [hA] at h
+        split at h <;> (simp only [Res.ok.injEq, Prod.mk.injEq] at h; rw [h.2])
+
+theorem dAddAll_store (cfg : Cfg) :
+    ∀ (l : List (Event × Nat)) (bs bs' : Blob × Store), dAddAll cfg bs l = .ok bs' →
+      addAll cfg bs.2 (applied l) = .ok bs'.2 := by
+  intro l
+  induction l with
+  | nil => intro bs bs' h; simp only [dAddAll, Res.ok.injEq] at h; subst h; rfl
+  | cons p l ih =>
+    intro bs bs' h
+    obtain ⟨e, mode⟩ := p
+    unfold dAddAll at h
+    cases hA : dAdd cfg bs.1 bs.2 e mode with
+    | err x => simp only [hA] at h; cases h
+    | panic x => simp only [hA] at h; cases h
+    | ok bs1 =>
+      simp only [hA] at h
+      have hrec := ih bs1 bs' h
+      rcases dAdd_store cfg _ _ _ _ e mode (show dAdd cfg bs.1 bs.2 e mode = .ok (bs1.1, bs1.2) by rw [hA]) with ⟨hm, hs⟩ | ⟨h1, h2, ha⟩
+      · have hf : (!(mode == 1 || mode == 2)) = false := by rcases hm with rfl | rfl <;> rfl
+        simp only [applied, List.filter_cons, hf, Bool.false_eq_true, if_false]
+        rw [hs] at hrec
+        exact hrec
+      · have hf : (!(mode == 1 || mode == 2)) = true := by simp [h1, h2]
+        simp only [applied, List.filter_cons, hf, if_true, List.map_cons, addAll, ha]
+        exact hrec
+
+end Nuts.C10
+
+namespace Nuts.C10
+open Nuts
+
+/-! ## the literal statistics shelf tracks the counters -/
+
+theorem addDid_none_contains (cfg : Cfg) (st : DidState) (e : Event) (h : addDid cfg st e = .ok none) :
+    contains st.events e = true := by
+  unfold addDid at h
+  by_cases hc : contains st.events e = true
+  · exact hc
+  · simp only [hc, Bool.false_eq_true, if_false] at h
+    split at h
+    · cases h
+    · cases h
+    · split at h
+      · cases h
+      · cases h
+
+theorem addDid_some_not_contains (cfg : Cfg) (st st' : DidState) (e : Event) (h : addDid cfg st e = .ok (some st')) :
+    contains st.events e = false := by
+  unfold addDid at h
+  by_cases hc : contains st.events e = true
+  · simp only [hc, if_true] at h; cases h
+  · simpa using hc
+
+theorem add_counters (cfg : Cfg) (s s' : Store) (e : Event) (st' : DidState) (h : add cfg s e = .ok s')
+    (hd : addDid cfg (s.get e.doc.id) e = .ok (some st')) :
+    s'.conflictedCount =
+      (if st'.conflicted then (if (s.get e.doc.id).conflicted then s.conflictedCount else s.conflictedCount + 1)
+       else (if (s.get e.doc.id).conflicted then s.conflictedCount - 1 else s.conflictedCount)) ∧
+    s'.documentCount =
+      (if lastVersionOf st' = 0 then s.documentCount + 1 else s.documentCount) := by
+  unfold add at h
+  simp only [hd] at h
+  cases h
+  exact ⟨rfl, rfl⟩
+
+
+theorem statsStep_refines (st : Stats) (c d : Nat) (was now : Bool) (lv : Nat)
+    (hc : decU32 st.cc = .ok c) (hd : decU32 st.dc = .ok d) (hcb : c + 1 < 4294967296) (hdb : d + 1 < 4294967296)
+    (hpos : was = true → now = false → 1 ≤ c) :
+    ∃ st', statsStep st was now lv = .ok st' ∧
+      decU32 st'.cc = .ok (if now then (if was then c else c + 1) else (if was then c - 1 else c)) ∧
+      decU32 st'.dc = .ok (if lv = 0 then d + 1 else d) := by
+  have e1 : u32 ((c : Int) + 1) = c + 1 := by unfold u32; omega
+  have e3 : u32 ((d : Int) + 1) = d + 1 := by unfold u32; omega
+  generalize hc' : (if now then (if was then c else u32 (c + 1)) else (if was then u32 ((c : Int) - 1) else c)) = c'
+  have hc'v : c' = (if now then (if was then c else c + 1) else (if was then c - 1 else c)) := by
+    rw [← hc']
+    cases was <;> cases now <;> simp only [if_true, if_false, Bool.false_eq_true, e1]
+    exact u32_pred c (hpos rfl rfl) (by omega)
+  have hc'lt : c' < 4294967296 := by
+    rw [hc'v]; cases was <;> cases now <;> simp only [if_true, if_false, Bool.false_eq_true] <;> omega
+  unfold statsStep
+  simp only [hc, hc']
+  by_cases hlv : lv = 0
+  · simp only [hlv, if_true, hd, e3]
+    exact ⟨_, rfl, by rw [← hc'v]; exact dec_enc_u32 _ hc'lt, dec_enc_u32 _ (by omega)⟩
+  · simp only [hlv, if_false]
+    exact ⟨_, rfl, by rw [← hc'v]; exact dec_enc_u32 _ hc'lt, hd⟩
+
+/-- the literal statistics shelf decodes to the counters of the chain-level store; `n` bounds the number of Adds so far -/
+structure StatsInv (cfg : Cfg) (s : Store) (st : Stats) (n : Nat) : Prop where
+  inv : StoreInv cfg s
+  cc : decU32 st.cc = .ok s.conflictedCount
+  dc : decU32 st.dc = .ok s.documentCount
+  bound : s.documentCount ≤ n
+
+theorem conflicted_le_documents (cfg : Cfg) (s : Store) (h : StoreInv cfg s) : s.conflictedCount ≤ s.documentCount := by
+  rw [h.confl, h.docs]; exact List.length_filter_le _ _
+
+theorem conflicted_pos (cfg : Cfg) (s : Store) (h : StoreInv cfg s) (id : String) (hc : (s.get id).conflicted = true) :
+    1 ≤ s.conflictedCount := by
+  rw [h.confl]
+  unfold Store.get at hc
+  cases hg : alGet s.dids id with
+  | none => rw [hg] at hc; simp at hc
+  | some x =>
+    rw [hg] at hc
+    have hmem := alGet_some_mem _ _ _ hg
+    exact List.length_pos_of_mem (List.mem_filter.mpr ⟨hmem, by simpa using hc⟩)
+
+theorem dAddS_step (cfg : Cfg) (b b' : Blob) (s s' : Store) (st : Stats) (e : Event) (mode n : Nat)
+    (hn : n + 2 < 4294967296) (h : StatsInv cfg s st n) (hadd : dAdd cfg b s e mode = .ok (b', s')) :
+    ∃ st', dAddS cfg b s st e mode = .ok (b', s', st') ∧ StatsInv cfg s' st' (n + 1) := by
+  unfold dAddS
+  simp only [hadd]
+  by_cases hskip : mode = 1 ∨ mode = 2 ∨ contains (s.get e.doc.id).events e = true
+  · simp only [hskip, if_true]
+    refine ⟨st, rfl, ?_⟩
+    have hs : s' = s := by
+      rcases dAdd_store cfg _ _ _ _ e mode hadd with ⟨_, hs⟩ | ⟨h1, h2, ha⟩
+      · exact hs
+      · rcases hskip with hm | hm | hc
+        · exact absurd hm h1
+        · exact absurd hm h2
+        · obtain ⟨_, hcase⟩ := add_get cfg s s' e ha
+          rcases hcase with ⟨_, hs⟩ | hsome
+          · exact hs
+          · rw [addDid_some_not_contains cfg _ _ e hsome] at hc; cases hc
+    rw [hs]
+    exact ⟨h.inv, h.cc, h.dc, Nat.le_succ_of_le h.bound⟩
+  · simp only [hskip, if_false]
+    have h1 : mode ≠ 1 := fun x => hskip (Or.inl x)
+    have h2 : mode ≠ 2 := fun x => hskip (Or.inr (Or.inl x))
+    have hc : contains (s.get e.doc.id).events e = false := by
+      cases hx : contains (s.get e.doc.id).events e with
+      | false => rfl
+      | true => exact absurd (Or.inr (Or.inr hx)) hskip
+    have ha : add cfg s e = .ok s' := by
+      rcases dAdd_store cfg _ _ _ _ e mode hadd with ⟨hm, _⟩ | ⟨_, _, ha⟩
+      · rcases hm with hm | hm
+        · exact absurd hm h1
+        · exact absurd hm h2
+      · exact ha
+    obtain ⟨_, hcase⟩ := add_get cfg s s' e ha
+    have hsome : addDid cfg (s.get e.doc.id) e = .ok (some (s'.get e.doc.id)) := by
+      rcases hcase with ⟨hnone, _⟩ | hsome
+      · rw [addDid_none_contains cfg _ e hnone] at hc; cases hc
+      · exact hsome
+    obtain ⟨hcc, hdc⟩ := add_counters cfg s s' e _ ha hsome
+    have hle := conflicted_le_documents cfg s h.inv
+    have hb := h.bound
+    obtain ⟨st', hst, hcc', hdc'⟩ := statsStep_refines st s.conflictedCount s.documentCount
+      (s.get e.doc.id).conflicted (s'.get e.doc.id).conflicted
+      (lastVersionOf (s'.get e.doc.id))
+      h.cc h.dc (by omega) (by omega) (fun hw _ => conflicted_pos cfg s h.inv _ hw)
+    refine ⟨st', by rw [hst], add_storeInv cfg s s' e h.inv ha, ?_, ?_, ?_⟩
+    · rw [hcc', hcc]
+    · rw [hdc', hdc]
+    · have hite : ∀ (P : Prop) [Decidable P], (if P then s.documentCount + 1 else s.documentCount) ≤ s.documentCount + 1 := by
+        intro P _; split <;> omega
+      rw [hdc]; exact Nat.le_trans (hite _) (by omega)
+
+theorem dAddSAll_total (cfg : Cfg) :
+    ∀ (l : List (Event × Nat)) (b : Blob) (s : Store) (st : Stats) (n : Nat) (bs' : Blob × Store),
+      n + l.length + 1 < 4294967296 → StatsInv cfg s st n → dAddAll cfg (b, s) l = .ok bs' →
+      ∃ st', dAddSAll cfg (b, s, st) l = .ok (bs'.1, bs'.2, st') ∧ StatsInv cfg bs'.2 st' (n + l.length) := by
+  intro l
+  induction l with
+  | nil =>
+    intro b s st n bs' _ h hr
+    simp only [dAddAll, Res.ok.injEq] at hr
+    subst hr
+    exact ⟨st, rfl, h⟩
+  | cons p l ih =>
+    intro b s st n bs' hn h hr
+    obtain ⟨e, mode⟩ := p
+    unfold dAddAll at hr
+    cases hA : dAdd cfg b s e mode with
+    | err x => simp only [hA] at hr; cases hr
+    | panic x => simp only [hA] at hr; cases hr
+    | ok bs1 =>
+      simp only [hA] at hr
+      simp only [List.length_cons] at hn
+      obtain ⟨st1, hs1, hi1⟩ := dAddS_step cfg b bs1.1 s bs1.2 st e mode n (by omega) h (by rw [hA])
+      obtain ⟨st', hs', hi'⟩ := ih bs1.1 bs1.2 st1 (n + 1) bs' (by omega) hi1 hr
+      refine ⟨st', ?_, ?_⟩
+      · unfold dAddSAll
+        simp only [hs1]
+        exact hs'
+      · simp only [List.length_cons]
+        rw [show n + (l.length + 1) = n + 1 + l.length by omega]
+        exact hi'
+
+end Nuts.C10
